@@ -309,13 +309,19 @@ func runHistory(id int, kind string, h *history, restarts bool) O {
 				}
 			}
 			outsOrig, outsNew := T{}, T{}
+			// the restarted crew's host goes on with the store it booted from: what the new crew reports is folded into it
+			// (the first report comes with the first message the new crew processes)
+			shadow2 := copyShadow(shadows[i])
 			for j := i + 1; j < len(h.Msgs); j++ {
-				o2, _ := step(ctx2, c2, h.Msgs[j])
+				o2, r2 := step(ctx2, c2, h.Msgs[j])
+				if r2 != nil {
+					fold(shadow2, r2)
+				}
 				outsNew = append(outsNew, o2["emitted"])
 				outsOrig = append(outsOrig, steps[j].(O)["emitted"])
 			}
 			rs = append(rs, O{"at": i + 1, "bootErr": bootErr, "outsOrig": outsOrig, "outsNew": outsNew,
-				"liveOrigEnd": steps[len(steps)-1].(O)["live"], "liveNewEnd": snapLive(c2)})
+				"liveOrigEnd": steps[len(steps)-1].(O)["live"], "liveNewEnd": snapLive(c2), "shadowNewEnd": snapShadow(shadow2)})
 			cancel2()
 		}
 	}
